@@ -259,6 +259,14 @@ def shrink(harness_bin, case_lines, n_session, predicate, workdir, budget=150):
     return cur
 
 
+def clear_replays(prop):
+    d = os.path.join(BUILD, "replays")
+    if os.path.isdir(d):
+        for fn in os.listdir(d):
+            if fn.startswith(prop + "-"):
+                os.remove(os.path.join(d, fn))
+
+
 def write_replay(prop, name, lines, extra):
     d = os.path.join(BUILD, "replays")
     os.makedirs(d, exist_ok=True)
